@@ -569,9 +569,10 @@ static const kw_t *const kw_tables[NFORMATS] = {
 
 /* number replacements */
 static const char *const num_repl[] = {
-    "0", "-1", "1e308", "nan", "1x", "", "9", "65536", "1500"
+    "0", "-1", "1e308", "nan", "1x", "", "9", "65536", "1500",
+    "4294967297", "2147483648", "inf", "1e999", "-0"
 };
-#define NNUMREPL 9
+#define NNUMREPL 14
 
 /* YAML structural substitutions for a value (children are dropped) */
 static const char *const ysub[] = {
